@@ -423,9 +423,11 @@ struct suspend_point_type {
             task_accessor::set_resume_trait(*this);
         }
         d1::task* execute(d1::execution_data& ed) override;
-        d1::task* cancel(d1::execution_data&) override {
-            __TBB_ASSERT(false, "The resume task cannot be canceled");
-            return nullptr;
+        d1::task* cancel(d1::execution_data& ed) override {
+            // The resume task belongs to the arena's default context, which user code can cancel
+            // (task::current_context()->cancel_group_execution() in an enqueued task). The suspended
+            // code must continue all the same: resume() has been called for it.
+            return execute(ed);
         }
     } m_resume_task;
 
